@@ -254,16 +254,20 @@ func TestVerifC10(t *testing.T) {
 			ops = []c10op{{"reg", 1, 0}, {"open", 1, 1}, {"open", 1, 2}, {"open", 1, 3}}
 			nfill = 0
 		}
+		sealsSoFar := 0
 		for i := 0; i < nfill; i++ {
 			switch x := rng.Intn(10); {
 			case x < 5:
 				ops = append(ops, c10op{"open", 1 + rng.Intn(2), 1 + rng.Intn(nMsg)})
 			case x < 7:
 				ops = append(ops, c10op{"seal", 3, 0})
+				sealsSoFar++
 			case x < 8:
 				ops = append(ops, c10op{"reg", 2, rng.Intn(2)})
-			case x < 9 && rng.Intn(2) == 0:
-				ops = append(ops, c10op{"open", 3, 1 + rng.Intn(2)})
+			case x < 9 && rng.Intn(2) == 0 && sealsSoFar > 0:
+				// an own message can only be presented once it has been sealed (the model would open a
+				// not-yet-sealed counter whose key is precomputed; there is no such envelope to present)
+				ops = append(ops, c10op{"open", 3, 1 + rng.Intn(sealsSoFar)})
 			default:
 				ops = append(ops, c10op{"reg", 1 + rng.Intn(2), rng.Intn(nMsg)})
 			}
